@@ -108,7 +108,11 @@ _e2e('C06', 'The destination directory is classified at every scheduling point (
             'cleanups, cancel sweeps.')
 _e2e('C07', 'A cancel at every scheduling step for every transfer mode and the entry points '
             'future.cancel, shutdown(cancel=True), with-block exit by exception/Ctrl-C, '
-            'Ctrl-C inside result(); C05/C06 clauses are evaluated for cleanliness.')
+            'Ctrl-C inside result() and inside shutdown(), exits through ValueError / '
+            'SystemExit / a BaseException subclass, 2-3 transfers cancelled at once; the '
+            'entry points must hand the cancel to the controller and the controller to every '
+            'tracked transfer (C07_EntryPointCancelsAll); C05/C06 clauses are evaluated for '
+            'cleanliness.')
 _e2e('C08', 'Two recording subscribers per transfer (one raising in on_done), outcome probed '
             'inside on_done, schedules, fault and cancel sweeps incl. the double announce '
             '(cancel racing the submission thread), provided sizes.')
